@@ -9,14 +9,14 @@ from ..domains import Rng
 from ..drivers import history
 from ..env import NULL, SPEC, WORK
 
-MC = "SPECIFICATION Spec\nCHECK_DEADLOCK FALSE\nCONSTANTS\n  UnifyNeedsPointers = {d12}\n  CopyDropsFields = {d13}\nINVARIANT TypeOK\nINVARIANT AlwaysEnabled\nPROPERTY NoWayBack\nPROPERTY CachesGrowOrReset\n"
-TRACE_CFG = "SPECIFICATION TraceSpec\nCHECK_DEADLOCK FALSE\nCONSTANTS\n  UnifyNeedsPointers = FALSE\n  CopyDropsFields = FALSE\n"
+MC = "SPECIFICATION Spec\nCHECK_DEADLOCK FALSE\nCONSTANTS\n  UnifyNeedsPointers = {d12}\n  CopyDropsFields = {d13}\n  MemoByIdentity = {d14}\nINVARIANT TypeOK\nINVARIANT AnswersCurrent\nINVARIANT AlwaysEnabled\nPROPERTY NoWayBack\nPROPERTY CachesGrowOrReset\n"
+TRACE_CFG = "SPECIFICATION TraceSpec\nCHECK_DEADLOCK FALSE\nCONSTANTS\n  UnifyNeedsPointers = FALSE\n  CopyDropsFields = FALSE\n  MemoByIdentity = FALSE\n"
 
 
 def state_graph():
     """TLC dumps the labelled state graph of GBObject; returns (inits {id: rep}, edges [(src, op, dst)])."""
     wd = tlc.workdir("C13_graph")
-    (wd / "g.cfg").write_text(MC.format(d12="FALSE", d13="FALSE"))
+    (wd / "g.cfg").write_text(MC.format(d12="FALSE", d13="FALSE", d14="FALSE"))
     rc, out = tlc._java(["-workers", "2", "-metadir", str(wd / "meta"), "-noGenerateSpecTE", "-config", str(wd / "g.cfg"),
                          "-dump", "dot,actionlabels", str(wd / "graph"), str(SPEC / "GBObject.tla")], cwd=str(SPEC), timeout=600)
     dot = (wd / "graph.dot").read_text()
@@ -27,6 +27,8 @@ def state_graph():
             inits[m.group(1)] = rep
     for m in re.finditer(r'^(-?\d+) -> (-?\d+) \[label="Do\(\\"(\w+)\\"\)"', dot, re.M):
         edges.append((m.group(1), m.group(3), m.group(2)))
+    for m in re.finditer(r'^(-?\d+) -> (-?\d+) \[label="Refill"', dot, re.M):
+        edges.append((m.group(1), "refill", m.group(2)))
     if not inits or not edges:
         raise Machinery("could not parse TLC's state graph dump")
     return inits, edges
@@ -69,9 +71,10 @@ def run(tier):
         "plus random walks of 10..30 operations over the same graph; after every call the result is compared with the same "
         "call on a freshly built grouping and the projected representation with the specification's state.  A trace is "
         "non-trivial if it reaches a representation change or a copy; distinct = distinct (keys, init, operation sequence)."))
-    ck.mc("GBObject", MC.format(d12="FALSE", d13="FALSE"), "object_histories", workers=4)
-    ck.mc_bg("GBObject", MC.format(d12="TRUE", d13="FALSE"), "neg_unify_needs_pointers", expect="AlwaysEnabled", workers=1)
-    ck.mc_bg("GBObject", MC.format(d12="FALSE", d13="TRUE"), "neg_copy_drops_fields", expect="AlwaysEnabled", workers=1)
+    ck.mc("GBObject", MC.format(d12="FALSE", d13="FALSE", d14="FALSE"), "object_histories", workers=4)
+    ck.mc_bg("GBObject", MC.format(d12="TRUE", d13="FALSE", d14="FALSE"), "neg_unify_needs_pointers", expect="AlwaysEnabled", workers=1)
+    ck.mc_bg("GBObject", MC.format(d12="FALSE", d13="TRUE", d14="FALSE"), "neg_copy_drops_fields", expect="AlwaysEnabled", workers=1)
+    ck.mc_bg("GBObject", MC.format(d12="FALSE", d13="FALSE", d14="TRUE"), "neg_memo_by_identity", expect="AnswersCurrent", workers=1)
     inits, edges = state_graph()
     paths = paths_to_edges(inits, edges)
     rng = Rng(f"C13-{ck.seed}")
